@@ -1,6 +1,6 @@
 (* C14 — the wire codec round-trips, so the main theorem holds for the extracted entry points. *)
 From Coq Require Import List ZArith Bool Lia.
-From Verif Require Import C14.Model C14.Spec C14.Rule C14.Codec C14.Proofs_Model.
+From Verif Require Import C14.Model C14.Spec C14.Rule C14.Codec C14.Proofs_Model C14.Proofs_Rule.
 Import ListNotations.
 Open Scope Z_scope.
 
@@ -55,27 +55,18 @@ Qed.
 Lemma cfg_eq g gw : be g = be gw -> cfsOn g = cfsOn gw -> ratio g = ratio gw -> g = gw.
 Proof. destruct g, gw. cbn. now intros -> -> ->. Qed.
 
-(* for EVERY integer input: the model's own observable passes the decision procedure, or the
-   failure has one of the recorded shapes *)
-Lemma wire_main inp :
-  prop_case inp (run_case inp) = 0 \/ In (finding_sig inp (run_case inp)) [1; 2; 3].
+(* whenever the rule holds the advertised ratio: the model's own observable passes the decision
+   procedure, or the failure is D10 *)
+Lemma wire_main_fresh inp :
+  (let '(g, gw, _) := decode inp in ratio g = ratio gw) ->
+  prop_case inp (run_case inp) = 0 \/ finding_sig inp (run_case inp) = 1.
 Proof.
   unfold prop_case, finding_sig, run_case.
   pose proof (decode_same_but_ratio inp) as Hd.
-  destruct (decode inp) as [[g gw] cs]. destruct Hd as [Hbe Hcfs].
-  rewrite enc_obs_sized, dec_enc_obs. cbn [negb].
-  destruct (prop_code gw cs (run g cs) =? 0) eqn:E0; [left; now apply Z.eqb_eq|right].
-  destruct (d10_shape gw cs (run g cs)) eqn:E1; [cbn; auto|].
-  destruct (ratio g =? ratio gw) eqn:Er.
-  - (* rule up to date: g = gw, so the failure must be D10 *)
-    apply Z.eqb_eq in Er. assert (g = gw) by now apply cfg_eq. subst gw.
-    destruct (only_d10 g cs) as [H|H]; [apply Z.eqb_neq in E0; contradiction|congruence].
-  - destruct (only_d10 g cs) as [H|H].
-    + rewrite H. cbn. auto.
-    + replace (prop_code g cs (run g cs) =? 0) with false.
-      * rewrite H. cbn. auto.
-      * unfold d10_shape in H. apply andb_true_iff in H. destruct H as [H _].
-        apply andb_true_iff in H. destruct H as [H _]. now apply negb_true_iff in H.
+  destruct (decode inp) as [[g gw] cs]. destruct Hd as [Hbe Hcfs]. intro Hr.
+  assert (g = gw) by now apply cfg_eq. subst gw.
+  rewrite enc_obs_sized, dec_enc_obs. cbn [negb andb].
+  destruct (only_d10 g cs) as [H|H]; [now left|right; now rewrite H].
 Qed.
 
 (* with every container recorded and the rule up to date the model passes *)
@@ -102,3 +93,50 @@ Qed.
 Lemma rule_stale_refuted :
   exists prev k, configured [prev; k] = k /\ 100 < k /\ ratio_of_state (rule_after [prev; k]) = prev /\ prev <> k.
 Proof. exists 112, 113. vm_compute. repeat split; congruence. Qed.
+
+(* under the generator's guard the rule holds the advertised ratio *)
+Lemma guard_rule prev k :
+  prev < 2 ^ 40 -> k < 2 ^ 40 -> (0 < prev -> 0 < k -> Z.abs (prev - k) <> 1) ->
+  ratio_of_state (rule_after [prev; k]) = configured [prev; k].
+Proof.
+  intros Hp Hk Hg.
+  destruct (Z_lt_le_dec 0 prev) as [Pp|Pp]; destruct (Z_lt_le_dec 0 k) as [Pk|Pk].
+  - destruct (Z.eq_dec prev k) as [->|Hne].
+    + unfold rule_after, configured, rule_update, parse_code. cbn [fold_left].
+      replace (k =? 0) with false by (symmetry; apply Z.eqb_neq; lia).
+      replace (0 <? k) with true by (symmetry; apply Z.ltb_lt; lia).
+      destruct (differs (RDec k) (RDec k)); reflexivity.
+    + apply rule_follows; lia.
+  - unfold rule_after, configured, rule_update, parse_code. cbn [fold_left].
+    replace (prev =? 0) with false by (symmetry; apply Z.eqb_neq; lia).
+    replace (0 <? prev) with true by (symmetry; apply Z.ltb_lt; lia).
+    replace (0 <? k) with false by (symmetry; apply Z.ltb_ge; lia).
+    destruct (k =? 0); reflexivity.
+  - unfold rule_after, configured, rule_update, parse_code. cbn [fold_left].
+    replace (0 <? prev) with false by (symmetry; apply Z.ltb_ge; lia).
+    replace (k =? 0) with false by (symmetry; apply Z.eqb_neq; lia).
+    replace (0 <? k) with true by (symmetry; apply Z.ltb_lt; lia).
+    destruct (prev =? 0); reflexivity.
+  - unfold rule_after, configured, rule_update, parse_code. cbn [fold_left].
+    replace (0 <? prev) with false by (symmetry; apply Z.ltb_ge; lia).
+    replace (0 <? k) with false by (symmetry; apply Z.ltb_ge; lia).
+    destruct (prev =? 0), (k =? 0); reflexivity.
+Qed.
+
+Lemma guard_fresh inp : input_guard inp = true -> let '(g, gw, _) := decode inp in ratio g = ratio gw.
+Proof.
+  unfold input_guard, decode.
+  destruct inp as [|m [|q [|c [|prev [|k [|n t]]]]]]; try reflexivity; intro H.
+  apply andb_true_iff in H. destruct H as [H Hn]. apply andb_true_iff in H. destruct H as [H1 H2].
+  apply Z.ltb_lt in H1. apply Z.ltb_lt in H2. cbn [cfg_of_codes ratio].
+  apply guard_rule; [exact H1|exact H2|]. intros Pp Pk E.
+  apply negb_true_iff in Hn.
+  replace (0 <? prev) with true in Hn by (symmetry; apply Z.ltb_lt; lia).
+  replace (0 <? k) with true in Hn by (symmetry; apply Z.ltb_lt; lia).
+  rewrite E in Hn. discriminate.
+Qed.
+
+(* for EVERY integer input satisfying the generator's guard *)
+Lemma wire_main inp : input_guard inp = true ->
+  prop_case inp (run_case inp) = 0 \/ finding_sig inp (run_case inp) = 1.
+Proof. intro H. apply wire_main_fresh, guard_fresh, H. Qed.
